@@ -232,3 +232,9 @@ func MergeInt64(f func() int64) int64       { return f() }
 func MergeUint64(f func() uint64) uint64    { return f() }
 func MergeBool(f func() bool) bool          { return f() }
 func MergeFloat64(f func() float64) float64 { return f() }
+
+// Goroutines(true) switches the engine to cooperative goroutines for the rest
+// of the path: `go f()` starts a goroutine, blocking channel operations
+// switch to another runnable goroutine (one deterministic schedule).  No-op
+// natively (real goroutines run).
+func Goroutines(on bool) {}
